@@ -27,7 +27,33 @@ pub fn tag_of(v: &Value) -> Tag {
     Tag::try_from(s(v).as_str()).expect("tag")
 }
 
+/// `pre`: the (sub-)filter is rendered once, or cloned and the clone rendered, BEFORE it is combined further - what a
+/// user does who sends a filter and then refines it; the later rendering must be that of the final expression.
 pub fn build(t: &Value) -> Filter {
+    let f = build_node(t);
+    match t["pre"].as_str().unwrap_or("") {
+        "render" => {
+            let mut c = mpd_client::protocol::command::Command::new("x");
+            let _ = c.add_argument(&f);
+            f
+        }
+        "clone" => {
+            let g = f.clone();
+            let mut c = mpd_client::protocol::command::Command::new("x");
+            let _ = c.add_argument(&f);
+            drop(f);
+            g
+        }
+        "clone_after" => {
+            let mut c = mpd_client::protocol::command::Command::new("x");
+            let _ = c.add_argument(&f);
+            f.clone()
+        }
+        _ => f,
+    }
+}
+
+fn build_node(t: &Value) -> Filter {
     match t["k"].as_str().unwrap() {
         "tag" => match t["ctor"].as_str().unwrap_or("new") {
             "tag" => Filter::tag(tag_of(&t["tag"]), s(&t["v"])),
